@@ -68,7 +68,8 @@ class s1:
     def t1(self):
         lcc.log_info("run at %r" % time.time())
         if os.environ.get("LCCVERIF_ATTACH"):
-            lcc.save_attachment_content("kept at %r" % time.time(), "note.txt", "a note")
+            name = os.environ["LCCVERIF_ATTACH"]
+            lcc.save_attachment_content("kept at %r" % time.time(), "note.txt" if name == "1" else name, "a note")
 '''
 
 PROJECT_PY = '''import os
@@ -158,8 +159,12 @@ def gen_case(rng, i):
             elif r3 < 0.22:
                 abort = "save-report"
             ops.append({"op": "run", "how": how, "cli": cli, "env": env, "limit": limit, "reporting": rep, "abort": abort})
-            if rng.random() < 0.2:
-                ops[-1]["attach"] = True        # the test saves an attachment: `attachments/` whatever the backends are
+            if rng.random() < 0.3:
+                # the test saves an attachment (`attachments/` whatever the backends are) under a name of ITS choice
+                ops[-1]["attach"] = rng.choice([True, True] + ATTACH_NAMES)
+            if rng.random() < 0.25:
+                # what hooks (pre_run / post_run), tools or a killed run leave in the report directory besides the backends' files
+                ops[-1]["leave"] = sorted(rng.sample(sorted(LEFTOVERS), rng.choice([1, 1, 2, 4])))
             runs += 1
         elif r < 0.90:
             ops.append({"op": "delete", "n": rng.randint(1, max(2, min(runs, 4)))})
@@ -242,7 +247,7 @@ def run_env(op, paths):
     elif op["reporting"].startswith("env:"):
         env["LCC_REPORTING"] = op["reporting"][4:]
     if op.get("attach"):
-        env["LCCVERIF_ATTACH"] = "1"
+        env["LCCVERIF_ATTACH"] = op["attach"] if isinstance(op["attach"], str) else "1"
     if op["env"] is not None:
         env["LCC_REPORT_DIR"] = paths(op["env"])
     if op["abort"] == "threads-env":
@@ -303,15 +308,63 @@ class Tracker:
                 pass
 
 
-def fingerprint(path):
+# names a test may give to an attachment (stored as attachments/NNNN_<name>): any extension, dotfiles, names that look like the
+# temporary files of an atomic save
+ATTACH_NAMES = ["device-dump.tmp", "core.tmp", ".hidden", "a.b.tmp", "snapshot.bak", "x.TMP", "tmp", "report.js.123.tmp", "trace.log~",
+                "report.js", "dump.tmp.gz"]
+# other legitimate content of a report directory, any depth: relative path -> ("file", text) | ("dir",) | ("link", target)
+LEFTOVERS = {
+    "report.js.123.tmp": ("file", 'var reporting_data = {"title": "cut in the mid'),       # a run killed during an atomic save
+    "post-run/summary.tmp": ("file", "3 passed\n"), "logs/a/b/trace.tmp": ("file", "deep\n"), ".env.tmp": ("file", "A=1\n"),
+    ".cache": ("dir",), "empty.tmp": ("dir",), "latest.tmp": ("link", "report.js"), "dangling": ("link", "nowhere.tmp"),
+    "README": ("file", "plain\n"), "core": ("file", "\x00\x01binary"),
+}
+
+
+def plant(dirname, names, universe=None):
+    """write the entries `names` of the universe into the directory (what a hook / tool / killed run would leave there)"""
+    universe = universe or LEFTOVERS
+    for rel in names:
+        spec = universe[rel]
+        p = os.path.join(dirname, rel)
+        os.makedirs(os.path.dirname(p), exist_ok=True)
+        if os.path.lexists(p):
+            continue
+        if spec[0] == "dir":
+            os.mkdir(p)
+        elif spec[0] == "link":
+            os.symlink(spec[1], p)
+        else:
+            with open(p, "w") as fh:
+                fh.write(spec[1])
+
+
+_SHA_CACHE = {}
+
+
+def _sha(p):
+    st = os.stat(p)
+    key = (st.st_dev, st.st_ino, st.st_size, st.st_mtime_ns)
+    if key not in _SHA_CACHE:
+        if len(_SHA_CACHE) > 20000:
+            _SHA_CACHE.clear()
+        with open(p, "rb") as fh:
+            _SHA_CACHE[key] = hashlib.sha1(fh.read()).hexdigest()[:12]
+    return _SHA_CACHE[key]
+
+
+def fingerprint(path, prefix=""):
+    """the content of a directory byte for byte, at any depth: [relative path, sha1 of a file | "dir" | "link:<target>"]"""
     out = []
     for name in sorted(os.listdir(path)):
         p = os.path.join(path, name)
-        if os.path.isfile(p):
-            with open(p, "rb") as fh:
-                out.append([name, hashlib.sha1(fh.read()).hexdigest()[:12]])
+        if os.path.islink(p):
+            out.append([prefix + name, "link:" + os.readlink(p)])
+        elif os.path.isdir(p):
+            out.append([prefix + name, "dir"])
+            out += fingerprint(p, prefix + name + "/")
         else:
-            out.append([name, "dir"])
+            out.append([prefix + name, _sha(p)])
     return out
 
 
@@ -455,6 +508,11 @@ def run_history(case):
                         for k in ENV_KEYS:
                             os.environ.pop(k, None)
                         Session._instance = old_instance
+                if op.get("leave") and starts:
+                    rd0 = starts[0].get("report_dir")
+                    if isinstance(rd0, str) and os.path.isdir(rd0) and os.path.realpath(rd0) == os.path.realpath(os.path.join(top, "report")) \
+                            and os.listdir(rd0) and explicit_target(op) is None:
+                        plant(rd0, op["leave"])
                 st = scan(top, ext, tracker)
                 st["outcome"] = outcome
                 st["start"] = None
@@ -594,6 +652,15 @@ def oracle(case, obs):
         # nothing that exists before and after is ever overwritten, whatever the operation
         for key, fp in prev["prints"].items():
             if key in st["prints"] and key != created and st["prints"][key] != fp:
+                if op["op"] == "run" and prev["current"] is not None and key == "fs%d" % prev["current"]:
+                    now_ = {a: b for a, b in st["prints"][key]}
+                    lost = [a for a, b in fp if a not in now_]
+                    changed = [a for a, b in fp if a in now_ and now_[a] != b]
+                    added = [a for a in now_ if a not in {x for x, _ in fp}]
+                    fails.append(C.Failure("C19/archive-differs-from-report",
+                                           f"op {k} ({op.get('how', op['op'])}): the archive of the previous report (directory {key}) is not the report "
+                                           f"directory as the previous run left it: lost {lost}, changed {changed}, added {added}"))
+                    continue
                 fails.append(C.Failure("C19/runs/report-overwritten",
                                        f"op {k} ({op.get('how', op['op'])}): the content of directory {key} changed: {fp} -> {st['prints'][key]}"))
         seen |= now | before
@@ -610,8 +677,29 @@ def to_model_ops(case):
         lim = effective_limit(case, op)
         impl = "default" if (not case["project"]["override"] or op["limit"] == "default") else {"limit": lim}
         out.append({"op": "run", "cli": op["cli"], "env": op["env"], "impl": impl, "writes": writes(op), "fate": fate(op),
-                    "files": files_of(op)})
+                    "files": files_of(op), "tree": tree_of(op)})
     return out
+
+
+FILE_OF_KIND = {v: k for k, v in KIND_OF_FILE.items()}
+
+
+def tree_of(op):
+    """everything a COMPLETED run at the default location leaves in its directory, as [relative path, kind] (the backends' files by
+    their names; the attachment under the name the test chose — stored as attachments/0001_<name>; what is planted after the run).
+    Empty exactly when `files_of(op)` is: the tree level and the kind level see the same `writes`."""
+    kinds = files_of(op)
+    if not kinds:
+        return []
+    tree = [[FILE_OF_KIND[k], "file"] for k in kinds if k != "attachments"]
+    if op.get("attach"):
+        tree.append(["attachments/0001_" + (op["attach"] if isinstance(op["attach"], str) else "note.txt"), "file"])
+    if explicit_target(op) is None:
+        tree += [[rel, LEFTOVERS[rel][0]] for rel in op.get("leave", [])]
+    return tree
+
+
+TRACKED_PATHS = set(LEFTOVERS) | {"attachments/0001_" + n for n in ATTACH_NAMES + ["note.txt"]} | {k for k in KIND_OF_FILE if k != "attachments"}
 
 
 def compare(case, obs, ans):
@@ -626,6 +714,11 @@ def compare(case, obs, ans):
         mine = {x: o[x] for x in ("current", "arch", "filled", "other")}
         if "content" in m:
             mine["content"] = o["content"]
+        if "tree" in m:
+            # tree level: which directory holds which of the tracked entries (backends' files, the attachment under its chosen name, planted
+            # leftovers), after every operation
+            mine["tree"] = sorted([int(key[2:]), sorted(p for p, _ in fp if p in TRACKED_PATHS)] for key, fp in o["prints"].items() if key.startswith("fs"))
+            m = dict(m, tree=sorted([i, sorted(p for p in paths if p in TRACKED_PATHS)] for i, paths in m["tree"]))
         if m != mine:
             return f"op {k} ({case['ops'][k]}): model {m} vs impl {mine}"
     return None
@@ -677,6 +770,10 @@ class Runs(C.Stream):
                 f.append("fate:" + fate(op))
                 if op.get("attach"):
                     f.append("test-saves-attachment")
+                    if isinstance(op["attach"], str):
+                        f.append("attachment-name:" + ("*.tmp" if op["attach"].endswith(".tmp") else "other"))
+                for rel in op.get("leave", []):
+                    f.append("left-in-report-dir:" + rel)
                 if explicit_target(op) is None and fate(op) != "before" and prev["current"] is not None:
                     pk = kinds_in(prev["prints"].get("fs%d" % prev["current"], []))
                     f.append("previous-dir-holds:" + ("+".join(pk) or "nothing"))
@@ -723,7 +820,7 @@ class Runs(C.Stream):
             yield dict(case, ops=ops[:i] + ops[i + 1:])
         for i, op in enumerate(ops):
             if op["op"] == "run":
-                for key, val in (("abort", None), ("env", None), ("cli", None), ("limit", "default"), ("attach", None)):
+                for key, val in (("abort", None), ("env", None), ("cli", None), ("limit", "default"), ("attach", None), ("leave", None)):
                     if op.get(key) != val:
                         yield dict(case, ops=ops[:i] + [dict(op, **{key: val})] + ops[i + 1:])
         uses_note = any("note" in op.get("reporting", "") for op in ops if op["op"] == "run")
@@ -764,6 +861,10 @@ Runs.corpus = [
     {"project": _FILE, "ops": [_run(reporting="cli:console note"), _run(reporting="cli:html note"), _run()]},
     # what the PREVIOUS run left: html + junit without report.js / report.xml, html alone, junit alone, only attachments
     {"project": _DIR, "ops": [_run(reporting="cli:console html junit"), _run()]},
+    # the previous report holds files named *.tmp: an attachment the test called device-dump.tmp; what a hook / a killed run left, at any
+    # depth (seeded/C19-12: a "cleanup" of **/*.tmp before archiving)
+    {"project": _DIR, "ops": [_run(attach="device-dump.tmp"), _run(), _run()]},
+    {"project": _FILE, "ops": [_run(leave=["report.js.123.tmp", "logs/a/b/trace.tmp", "latest.tmp", "empty.tmp", ".env.tmp"]), _run(), _run()]},
     {"project": _DIR, "ops": [_run(reporting="cli:html"), _run(reporting="cli:junit"), _run(reporting="env:html junit"), _run(reporting="cli:^json"),
                               _run(reporting="console", attach=True), _run(reporting="cli:xml"), _run()]},
 ]
